@@ -74,8 +74,13 @@ def c5_ep_tables(fb, rep):
     repetition is not counted."""
     from . import C01
     clause = 'C11.5'
-    n = C01.square_ctor_ranges(fb, rep, clause, only_tables=('epMaskW', 'epMaskB'))
-    rep.floor(clause, 'squares fed into the en-passant mask tables', n or 0, 4)
+    C01.square_ctor_ranges(fb, rep, clause, only_tables=('epMaskW', 'epMaskB'))
+    k = C01.ep_tables(fb, rep, clause)
+    rep.floor(clause, 'en-passant mask tables', k, 2)
+    ep_guard(fb, rep, clause)
+
+
+def ep_guard(fb, rep, clause):
     # makeMove sets the en-passant square only under the mask test
     mk = fb.find1('Position::makeMove')
     if rep.need(clause, mk, 'Position::makeMove'):
